@@ -56,6 +56,13 @@ pub fn entry() -> i32 {
                 replay = need(i).cloned();
                 i += 2;
             }
+            "--worker" => {
+                #[cfg(feature = "full")]
+                if prop == "C17" {
+                    return props::c17::worker();
+                }
+                return usage();
+            }
             "--repo" => {
                 repo = match need(i) {
                     Some(s) => s.clone(),
